@@ -1105,6 +1105,15 @@ func TestCheck(t *testing.T) {
 		case "concurrent":
 			// schedule dependent: run the whole concurrent workload of this shard again
 			c.concurrent(r.Pick(6, 40))
+		case "overlap":
+			for _, cfg := range cfgs {
+				if cfg.Name == tc.Cfg {
+					// the case is a function of (seed, shard, index); run it a few times, the overlap depends on timing
+					for k := 0; k < 3; k++ {
+						c.overlapCase(cfg, rc.Dyn, tc.Index, r.Rand(fmt.Sprintf("overlap/%d/%d", tc.Index/1000, (tc.Index%1000)/2)))
+					}
+				}
+			}
 		case "retry":
 			for _, cfg := range cfgs {
 				if cfg.Name == tc.Cfg && rc.Case != nil {
@@ -1126,6 +1135,12 @@ func TestCheck(t *testing.T) {
 		c.retryWave(w, retryConfigs(cfgs, r.Thorough(), shard0, w))
 	}
 	r.Extra("ms_retry_waves", time.Since(t0).Milliseconds())
+	// overlapping posts of one forwarder: batch 2 and an event are built while batch 1 waits for its retry
+	t0 = time.Now()
+	for w, nw := 0, r.Pick(1, 4); w < nw; w++ {
+		c.overlapWave(w, overlapConfigs(cfgs, r.Thorough(), shard0, w))
+	}
+	r.Extra("ms_overlap_waves", time.Since(t0).Milliseconds())
 	// many senders at one ingestion router
 	t0 = time.Now()
 	c.concurrent(r.Pick(6, 40))
@@ -1190,6 +1205,7 @@ type replayCase struct {
 	Fault string `json:"fault"`
 	Item  string `json:"item"`
 	Case  *tcase `json:"case"`
+	Dyn   bool   `json:"dyn"`
 }
 
 func trimHex(s string) string {
